@@ -114,7 +114,7 @@ func newSeekableDecryptingReader(r io.ReadSeeker, base int64, mainKey []byte, aa
 		return nil, errors.New("ciphertext too short for segment count")
 	}
 
-	return &seekableDecryptingReader{
+	s := &seekableDecryptingReader{
 		r:             r,
 		base:          base,
 		cipher:        gcm,
@@ -125,7 +125,18 @@ func newSeekableDecryptingReader(r io.ReadSeeker, base int64, mainKey []byte, aa
 		numSegments:   numSegments,
 		plaintextLen:  plaintextLen,
 		segIndex:      -1,
-	}, nil
+	}
+
+	// numSegments and plaintextLen come from the length of the stored
+	// ciphertext, which nothing authenticates: what marks the end of the
+	// stream is that its final segment decrypts with the last-segment flag.
+	// Reads only open the segments they touch, so check the final one here;
+	// otherwise a truncated stream, or one with trailing segments removed,
+	// would read as a shorter plaintext without an error.
+	if err := s.loadSegment(numSegments - 1); err != nil {
+		return nil, err
+	}
+	return s, nil
 }
 
 // segmentForPlaintextOffset returns the index of the segment holding the
